@@ -198,6 +198,20 @@ func ObjectToBag(s *slip.Scope, obj slip.Object, depth int) (v any) {
 			}
 		}
 		v = list
+	case slip.HashTable:
+		// Like an assoc list, the values are bag values as well.
+		m := make(map[string]any, len(val))
+		for k, e := range val {
+			switch tk := k.(type) {
+			case slip.String:
+				m[string(tk)] = ObjectToBag(s, e, depth)
+			case slip.Symbol:
+				m[string(tk)] = ObjectToBag(s, e, depth)
+			default:
+				m[slip.ObjectString(k)] = ObjectToBag(s, e, depth)
+			}
+		}
+		v = m
 	case *slip.Bignum, *slip.LongFloat:
 		v = bigNumberToBag(val)
 	case *flavors.Instance:
